@@ -295,11 +295,31 @@ def replay(prop: str, path: str) -> int:
 
 
 def setup() -> int:
+    """Translate, build the models and the driver (must succeed: exit 2 otherwise) and pre-build every proof module.
+    A proof module that does not compile is NOT a setup failure: the tie modules (CRProps/T*.lean, C03) are stated over
+    definitions regenerated from the working tree, so on a changed tree a broken obligation is exactly what they are there to
+    show -- every ./check re-builds its own modules and decides (failing-input search, VIOLATION).  Setup only warms the cache."""
+    import glob
     with common.BuildLock():
-        common.run_translators()
+        st = common.run_translators()
+        for k, v in st.items():
+            if not (v.startswith("ok") or v.startswith("regenerated")):
+                print(f"note: translator {k}: {v}")
+        ok, log = common.lake_build(["CRModel", "Driver", "crdriver"])
+        if not ok:
+            print(log[-3000:])
+            return 2
         ok, log = common.lake_build()
-        print(log[-3000:])
-        return 0 if ok else 2
+        print(log[-1500:])
+        if not ok:
+            broken = []
+            for f in sorted(glob.glob(os.path.join(common.LEAN, "CRProps", "*.lean"))):
+                m = "CRProps." + os.path.basename(f)[:-5]
+                ok1, _ = common.lake_build([m])
+                if not ok1:
+                    broken.append(m)
+            print(f"note: proof modules that do not build on this tree (each ./check that lists one decides): {broken}")
+        return 0
 
 
 def main():
